@@ -596,6 +596,10 @@ class VectorContainer:
 
         def resolve_indexes(match: re.match) -> str:
             """Convert the contents of a possibly backticked index expression to integer indexes."""
+            # Leave purely positional indexes/slices (no backticks) untouched
+            if match.group(1) is None or '`' not in match.group(1):
+                return match.group(0)
+
             # Treat the contents of `match` as a slice, with up to three
             # components: start, stop, step
             slice_ = match.group(1).split(':')
@@ -613,7 +617,7 @@ class VectorContainer:
             start, stop, *step = map(str.strip, slice_)
 
             # Resolve first (`start`) and second (`stop`) arguments
-            if len(start):
+            if len(start) and '`' in start:
                 start = resolve_index_in_span(start)
 
                 # Handle slices (typically from a `pandas` `PeriodIndex` or
@@ -621,7 +625,7 @@ class VectorContainer:
                 if isinstance(start, slice):
                     start = start.start
 
-            if len(stop):
+            if len(stop) and '`' in stop:
                 stop = resolve_index_in_span(stop)
 
                 # Handle slices (typically from a `pandas` `PeriodIndex` or
